@@ -239,6 +239,37 @@ func CompareEntry(c *cat.Catalog, dry bool, idx int, want, got *Entry) []Diverge
 			add(kind, fmt.Sprintf("%s: %s#%d parameter %d (%s %s): want %s got %s", ctx, k.F, k.N, j+1, fn.Ps[j].K, fn.Ps[j].M, provBag(wa), provBag(ga)), false)
 		}
 	}
+	// re-entrant Invokes made by user functions: same calls, in order, with the same outcome
+	var wn, gn []Event
+	for _, ev := range want.Log {
+		if ev.T == "nest" {
+			wn = append(wn, ev)
+		}
+	}
+	for _, ev := range got.Log {
+		if ev.T == "nest" {
+			gn = append(gn, ev)
+		}
+	}
+	if len(wn) != len(gn) {
+		add("nest.count", fmt.Sprintf("%s: nested Invokes want %d got %d", ctx, len(wn), len(gn)), false)
+	} else {
+		for i := range wn {
+			w, g := wn[i], gn[i]
+			if w.F != g.F {
+				add("nest.count", fmt.Sprintf("%s: nested Invoke %d want %s got %s", ctx, i, w.F, g.F), false)
+				continue
+			}
+			if normVerdict(w.O) != g.O {
+				add("nest.verdict", fmt.Sprintf("%s: nested Invoke of %s: want %s got %s", ctx, w.F, w.O, g.O), false)
+			} else if (g.O == "fail" || g.O == "panic" || g.O == "invokeerr") && (w.E != g.E || w.N != g.N) {
+				add("nest.root", fmt.Sprintf("%s: nested Invoke of %s: root cause want %s#%d got %s#%d", ctx, w.F, w.E, w.N, g.E, g.N), false)
+			}
+			if g.Name != "" {
+				add("class."+g.Name, fmt.Sprintf("%s: error of the nested Invoke of %s", ctx, w.F), false)
+			}
+		}
+	}
 	// callbacks
 	var wcb, gcb []Event
 	for _, ev := range want.Log {
